@@ -33,6 +33,9 @@ func runC07(c *Ctx) {
 	c07Startup(c)
 	recoveryErrors(c, "R6")
 	rebuildOnOpen(c, "R7")
+	recoveryHeightAgreement(c, "R7")
+	c.Rule("R8", "no store write bypasses the write-ahead log", 1)
+	walNeverDisabled(c, "R8")
 }
 
 func singleWriter(c *Ctx, rule string, applyAdd *ssa.Function) {
